@@ -535,6 +535,22 @@ void SpuriousCase(Ctx& ctx, const char* tname) {
       ctx.Check(SameBits(a.load(), cur), "spurious-weak", "C19",
                 "atomic<%s>: spuriously failed weak CAS changed the stored value to %s", tname, Show(a.load()).c_str());
     }
+    // a spurious failure must still load the current value into `expected` when they differ
+    {
+      T other = Operand<T>(ctx.rng);
+      if (!SameBits(other, cur)) {
+        T e3 = other;
+        bool r3 = a.compare_exchange_weak(e3, des, std::memory_order_acq_rel, std::memory_order_acquire);
+        ctx.Check(!r3 && SameBits(e3, cur), "spurious-weak", "C19",
+                  "atomic<%s>: failed weak CAS (frequency 1) with expected=%s left expected=%s, the stored value is %s (returned %d)",
+                  tname, Show(other).c_str(), Show(e3).c_str(), Show(cur).c_str(), (int)r3);
+        T e4 = other;
+        bool r4 = a.compare_exchange_weak(e4, des);
+        ctx.Check(!r4 && SameBits(e4, cur), "spurious-weak", "C19",
+                  "atomic<%s>: failed weak CAS (single-order overload) left expected=%s, the stored value is %s", tname,
+                  Show(e4).c_str(), Show(cur).c_str());
+      }
+    }
     T e2 = cur;
     bool r2 = a.compare_exchange_strong(e2, des);
     ctx.Check(r2 && SameBits(a.load(), des), "spurious-strong", "C19",
@@ -554,7 +570,14 @@ void SpuriousCase(Ctx& ctx, const char* tname) {
     yaclib_std::atomic<T> a{cur};
     T e = a.load();
     int spins = 0;
+    T other = Operand<T>(ctx.rng);
+    e = other;  // usually stale: every failure, spurious or not, must refresh it
     while (!a.compare_exchange_weak(e, des) && ++spins < 10000) {
+      if (!SameBits(e, a.load())) {
+        ctx.Fail("spurious-weak", "C19", "atomic<%s>: a failed weak CAS (frequency 2) left expected=%s while the stored value is %s",
+                 tname, Show(e).c_str(), Show(a.load()).c_str());
+        break;
+      }
     }
     ctx.Check(spins < 10000 && SameBits(a.load(), des), "spurious-weak", "C19",
               "atomic<%s>: CAS loop with failure frequency 2 ended after %d spins with value %s", tname, spins,
